@@ -24,6 +24,7 @@ ASSUMPTIONS = [
     "2^(n-1) fragmentations only for short streams and all single/double cuts of longer ones",
 ]
 TRUSTED = []
+ORACLE_LIMIT = {"quick": 40000, "thorough": 60000}   # the exhaustive streams are oracle-checked in full in the quick tier
 
 
 def _ids(tr):
